@@ -584,8 +584,8 @@ def r_wrapping_arith(view, prefix, allowed):
             continue
         for c in b["calls"]:
             nm = nz(c["name"])
+            n += 1          # call sites scanned (the rule's expected hit count is zero; its positive control lives in the fixture)
             if nm.startswith("core::num::") and "::wrapping_" in nm:
-                n += 1
                 if "<impl usize>" in nm:
                     continue        # index arithmetic (its result is bounds-checked where it is used): not limb arithmetic
                 key = (d, c["span"]["snip"])
